@@ -315,6 +315,25 @@ func runC14Replies(c *Ctx) {
 	}
 }
 
+// the same CTCP payload arriving several times in a row under different commands / from different senders: each message is
+// judged on its own (a request is answered, the identical text as a NOTICE is not; the answer goes to THAT message's sender)
+func runC14Repeats(c *Ctx) {
+	for _, req := range []string{"PING 42", "VERSION", "TIME", "FOO bar", "SOURCE"} {
+		for _, order := range [][]string{{"PRIVMSG", "NOTICE", "PRIVMSG"}, {"NOTICE", "PRIVMSG", "NOTICE"}, {"PRIVMSG", "PRIVMSG", "NOTICE", "NOTICE"}} {
+			in := map[string]string{"nick": "me", "check": "c14", "version": "mybot 1.0"}
+			steps := []string{"R:srv 001 me :Welcome"}
+			for i, cmd := range order {
+				src := []string{":bob!b@h ", ":carl!c@h ", ":bob!b@h "}[i%3]
+				steps = append(steps, "R"+src+cmd+" me :\x01"+req+"\x01")
+			}
+			stepsToIn(in, steps)
+			c.run("session", in)
+			c.R.Count(fmt.Sprint(in), true, "replies-repeated-payload")
+			c.R.Traces++
+		}
+	}
+}
+
 func runC03Helpers(c *Ctx) {
 	r := c.R
 	nasty := []string{"x", "a b", "evil\r\nQUIT :pwned", "a\nJOIN #x", "a\rb", "\r\n", "nul\x00byte", "bad\xffutf8", ":colon", "", " ", "#chan\r\nPRIVMSG #other :hi", "tab\there",
